@@ -291,6 +291,8 @@ def validate_trace(wd, rows, module, cfg_head, props, invariants=(), label="trac
     Returns dict(accepted_execs, events, violations=[{rule, kind, index, segment(rows), state}], blocked=None|info).
     A violated rule removes that execution from the trace and validation continues on the rest."""
     res = {"accepted_execs": 0, "events": 0, "violations": [], "blocked": None, "tlc_wall": 0.0}
+    if os.environ.get("VERIF_MAX_VIOL"):      # seeded-defect runs only need to know THAT the check fires
+        max_viol = min(max_viol, int(os.environ["VERIF_MAX_VIOL"]))
     rows = list(rows)
     it = 0
     while True:
